@@ -113,6 +113,7 @@ type Stat struct {
 
 type Msg struct {
 	Size    uint32
+	StatSize int // > 0: the stat record's inner size field is overwritten with StatSize-1 (hostile peers only)
 	Type    uint8
 	Tag     uint16
 	Msize   uint32
@@ -398,6 +399,10 @@ func Encode(m *Msg, dotu bool) []byte {
 		case "S":
 			s := EncodeStat(&m.Stat, dotu)
 			b = putInt(b, uint64(len(s)), 2)
+			if m.StatSize > 0 && len(s) >= 2 {
+				// a hostile peer: the stat's own size[2] says something else than what follows
+				s[0], s[1] = byte(m.StatSize-1), byte((m.StatSize-1)>>8)
+			}
 			b = append(b, s...)
 		}
 	}
